@@ -48,7 +48,8 @@ class World:
         self.home = os.path.join(root, "home")
         self.bin = os.path.join(root, "bin")
         self.hooks_log = os.path.join(root, "hooks.log")
-        self.now_ms = EPOCH_MS
+        # GAISIM_EPOCH_MS (survey knob) / the world option `epoch_ms` move the start of simulated time
+        self.now_ms = int(os.environ.get("GAISIM_EPOCH_MS") or EPOCH_MS)
         self.use_simgit = use_simgit
         self.prompt_storage = prompt_storage
         self.extra_env = {}
